@@ -2,7 +2,7 @@
 # usage: mutant_prompt.sh <PROPERTY-ID> <worktree-dir>   -> prints the prompt for a seeding sub-agent
 ID=$1; WT=$2
 cat <<P
-You are helping test a verification tool by seeding a realistic bug into a Go library. You work ONLY inside the git worktree $WT (a checkout of the Go module github.com/bbockelm/cedar, HTCondor's CEDAR wire protocol in Go). Do not read or write anything under /verif or /repo. Do not commit and do NOT use `git stash` (the stash is shared by all worktrees of the repository and other agents are working in sibling worktrees): to switch a change off and on use `git diff > file; git checkout -- .; ...; git apply file`.
+You are helping test a verification tool by seeding a realistic bug into a Go library. You work ONLY inside the git worktree $WT (a checkout of the Go module github.com/bbockelm/cedar, HTCondor's CEDAR wire protocol in Go). Do not read or write anything under /verif or /repo. Do not commit and do NOT use git stash (the stash is shared by all worktrees of the repository and other agents are working in sibling worktrees): to switch a change off and on, save it with git diff into a file, revert with git checkout -- . and re-apply it with git apply.
 
 The library is supposed to satisfy this property:
 
